@@ -66,6 +66,27 @@ add("C04", EXPL,
     "horizon is a livelock. All 8 transports, traffic in one and both directions, connect/accept/handshake phases included.",
     "Liveness reduced to deadlock/livelock freedom of finite goals within bound D and horizon 3000 steps. Virtual time. "
     "Environment emulation trusted as in C01.", "DESIGN.md 2/C04")
+add("C11", EXPL,
+    "Set-histories are enumerated completely inside the explorer through free choice points: every single and every ordered pair of "
+    "(attribute, admissible value, life point) with life points = creation map, while resolving (resolver answer withheld), while the "
+    "TCP handshake is pending (both the pending and the completed-at-once world), established, closed by peer, on connect-side and "
+    "accepted sockets of tcp, tls, btcp, btls and utls; below each history every schedule and I/O-deviation pattern within D. Oracle: "
+    "accepted value == xcm_attr_get == option in force (shim's setsockopt table) on the descriptor that carries the connection; "
+    "creation-only attributes never change after creation. Plus complete products for xcm.service x transport x role, xcm.blocking vs "
+    "xcm_set_blocking, xcm.local_addr vs bind()/getsockname()/peer's view, and server->accepted inheritance with/without override.",
+    "'In force' ends at the setsockopt() the kernel was given (emulated TCP). A creation-only attribute may answer EACCES or EINVAL or "
+    "accept a no-op; its value must not change. Value sets are {non-default, default, kernel maximum}.", "DESIGN.md 2/C11 and 7a")
+add("C15",
+    "preemption-bounded stateless model checking of real threads under a cooperative scheduler with modelled mutexes (every schedule "
+    "with <= D preemptions at lock and system-call points), plus a free-running ThreadSanitizer complement",
+    "2-3 threads with distinct sockets (ux, tcp, tls with same/different credentials, synchronised hand-over of a socket): every schedule "
+    "with <= 2 (quick) / <= 3 (thorough, two-thread) preemptions; scheduling points at every modelled mutex acquisition and every shim "
+    "system call inside XCM; oracles on the shared eventfd pool (never closed while in use or registered), the SSL_CTX cache (never freed "
+    "while held or while an SSL made from it lives), certificate identity per thread, socket ids, delivery, end state, deadlock, crash. "
+    "Complement: free-running ThreadSanitizer pass of the same thread bodies.",
+    "Preemption-bounded and sequentially consistent; plain data races and weak-memory effects are covered only by the TSan complement "
+    "(a sampling pass, labelled as such in the evidence). pts=dep scenarios use an independence reduction. No I/O deviations.",
+    "DESIGN.md 2/C15")
 add("C16", EXPL,
     "The readiness oracle (idle+flushed pair with condition 0 / RECEIVABLE-after-EAGAIN not readable; server with nothing "
     "pending not readable; already-met conditions readable at once; xcm_fd constant and POLLIN-only, sampled after every call) "
@@ -89,11 +110,11 @@ def main():
                    baseline_off_cmd="cd /repo && make -j16 >/dev/null 2>&1 && make -j16 xcmtest >/dev/null 2>&1; ./xcmtest -c -v -p 8",
                    source_commits=[], add_only=True),
         engines=[dict(name="mcx-explorer", path="engine/mcx",
-                      serves_properties=sorted(p for p, c in CHECKS.items() if c["engine"] == "mcx-explorer"),
+                      serves_properties=[p for p in PROPS if p in CHECKS and CHECKS[p]["engine"] == "mcx-explorer"],
                       kind_free_text="stateless explorer with iterative deviation bounding over the real library; "
                                      "cooperative scheduler; fork per execution; envshim owns libc answers"),
                  dict(name="enumerators", path="engine/harness",
-                      serves_properties=sorted(p for p, c in CHECKS.items() if c["engine"] == "enumerator"),
+                      serves_properties=[p for p in PROPS if p in CHECKS and CHECKS[p]["engine"] == "enumerator"],
                       kind_free_text="in-process exhaustive enumeration / explicit-state BFS against reference models")],
         checks=[CHECKS[p] for p in PROPS if p in CHECKS],
         notes="See DESIGN.md. known_findings.json lists genuine defects recorded rather than repaired and the fixed ones.",
